@@ -334,7 +334,10 @@ def scenario_scene(s, pad=0, field_det=False):
             objs.append(fd)
         return objs, cons
     spec = {k: th for k in Y.FACES}
-    return P.build_steps((n, n, n), {k: "pml" for k in Y.FACES}, spec, s["steps"], extra_fn=fn, gradient=None)
+    params = None
+    if s.get("kappa_end"):   # kappa grading on every face: exercises the `(1/kappa - 1) * d + psi` branch of step_cpml
+        params = {k: dict(kappa_end=float(s["kappa_end"])) for k in Y.FACES}
+    return P.build_steps((n, n, n), {k: "pml" for k in Y.FACES}, spec, s["steps"], params=params, extra_fn=fn, gradient=None)
 
 
 def run_scene(sc):
@@ -380,7 +383,7 @@ def scenario_case(ctx, s, sample=False):
     d = scenario_fails(s)
     ctx.impl_property_evals += 1
     ctx.case(sample=s if sample else None, nontrivial=("scenario", s["src"], s["n"], s["th"], s["pol"], tuple(s["pos"]), s["reference"]),
-             scenario_kind=s["src"], scenario_reference=s["reference"], scenario_th=s["th"])
+             scenario_kind=s["src"], scenario_reference=s["reference"], scenario_th=s["th"], scenario_kappa_end=s.get("kappa_end") or 1.0)
     if d:
         ctx.violation(s, d)
 
@@ -402,6 +405,9 @@ def run(ctx):
     if ctx.thorough:
         for kind in ("dipole_e", "dipole_m", "plane", "plane"):
             scenario_case(ctx, gen_scenario(ctx.rng, True, kind))
+        s = gen_scenario(ctx.rng, True, "dipole_m")
+        s["kappa_end"] = 2.0
+        scenario_case(ctx, s)
         for kind in ("dipole_e", "plane"):
             s = gen_scenario(ctx.rng, False, kind)
             s["reference"] = True
@@ -460,6 +466,14 @@ def search(ctx, hints):
                 ctx.violation(h if keep else dict(kind="scene", scene=h.get("scene", h)), d)
                 return
     rng = ctx.rng.fork()
+    # the property's scenario once with kappa grading (kappa_end = 2: the non-default branch of step_cpml)
+    s = gen_scenario(rng, False, "dipole_e")
+    s["kappa_end"] = 2.0
+    ctx.impl_property_evals += 1
+    d = scenario_fails(s)
+    if d:
+        ctx.violation(s, d)
+        return
     # the property's scenario: residual-energy clause, then the reference-domain clause (reference enlarged by 12 cells
     # per side here to keep the search affordable; baseline 1e-10 .. 3e-8 against the 1e-4 threshold)
     for i in range(ctx.scale(3, 8)):
